@@ -2,6 +2,7 @@
 #ifndef _GNU_SOURCE
 #define _GNU_SOURCE
 #endif
+#include <stdio_ext.h>
 #include "world.h"
 
 #include <cerrno>
@@ -110,6 +111,9 @@ void World::reset_run()
 	cur_op = -1;
 	fs.clear();
 	streams.clear();
+	file_pool.clear();
+	recycle_files = false;
+	files_recycled = stream_use_after_close = 0;
 	lib_open.clear();
 	lib_opened = lib_closed = 0;
 	op_reads = op_read_budget = 0;
@@ -224,9 +228,19 @@ void __real_abort(void) __attribute__((noreturn));
 void __real___assert_fail(const char *, const char *, unsigned, const char *) __attribute__((noreturn));
 }
 
+struct FileCookie {
+	SimStream *cur; // the stream this FILE currently reads
+};
+
 static ssize_t ck_read(void *c, char *buf, size_t n)
 {
-	SimStream *s = (SimStream *)c;
+	SimStream *s = ((FileCookie *)c)->cur;
+	if (s->closed) {
+		// only reachable with recycled FILEs: the library reads a stream it has closed
+		W.stream_use_after_close++;
+		errno = EBADF;
+		return -1;
+	}
 	s->reads++;
 	W.op_reads++;
 	W.total_reads++;
@@ -251,9 +265,12 @@ static ssize_t ck_read(void *c, char *buf, size_t n)
 
 static int ck_close(void *c)
 {
-	SimStream *s = (SimStream *)c;
+	FileCookie *fc = (FileCookie *)c;
+	SimStream *s = fc->cur;
 	s->closed = true;
 	s->fp = nullptr;
+	s->cookie = nullptr;
+	delete fc;
 	return 0;
 }
 
@@ -265,8 +282,32 @@ SimStream *World::new_stream(const std::string &bytes, const std::string &name, 
 	s->name = name;
 	s->by_lib = by_lib;
 	s->chunk = default_chunk;
+	if (recycle_files && !file_pool.empty()) {
+		// the FILE of a stream closed earlier, at its old address, now reading this stream
+		FILE *fp = file_pool.back();
+		file_pool.pop_back();
+		FileCookie *fc = nullptr;
+		for (SimStream *o : streams)
+			if (o->recycled_fp == fp) {
+				fc = (FileCookie *)o->cookie;
+				o->recycled_fp = nullptr;
+				o->cookie = nullptr;
+			}
+		if (fc) {
+			fc->cur = s;
+			s->cookie = fc;
+			s->fp = fp;
+			__fpurge(fp);
+			clearerr(fp);
+			files_recycled++;
+			streams.push_back(s);
+			return s;
+		}
+	}
 	cookie_io_functions_t io = {ck_read, nullptr, nullptr, ck_close};
-	s->fp = fopencookie(s, "r", io);
+	FileCookie *fc = new FileCookie{s};
+	s->cookie = fc;
+	s->fp = fopencookie(fc, "r", io);
 	streams.push_back(s);
 	return s;
 }
@@ -296,6 +337,12 @@ void World::free_all_blocks()
 			__real_fclose(fp);
 	}
 	lib_open.clear();
+	std::vector<FILE *> pool;
+	pool.swap(file_pool);
+	for (SimStream *s : streams)
+		s->closed = s->closed && s->recycled_fp == nullptr; // pooled FILEs are closed for real now
+	for (FILE *fp : pool)
+		__real_fclose(fp); // ck_close marks its stream
 	for (SimStream *s : streams) {
 		if (s->fp)
 			__real_fclose(s->fp);
@@ -522,6 +569,16 @@ int __wrap_fclose(FILE *fp)
 		W.lib_open.erase(it);
 		W.lib_closed++;
 	}
+	if (W.recycle_files)
+		for (sim::SimStream *s : W.streams)
+			if (s->fp == fp && !s->closed) {
+				// keep the FILE object for the next stream that is opened (address reuse)
+				s->closed = true;
+				s->fp = nullptr;
+				s->recycled_fp = fp;
+				W.file_pool.push_back(fp);
+				return 0;
+			}
 	return sim::__real_fclose(fp);
 }
 
